@@ -1362,7 +1362,9 @@ pub fn check_c11(ix: &Ix<'_>, v: &mut Vec<Violation>) {
                 (0..*i).any(|j| {
                     reqs[j].pid == pid
                         && match reqs[j].fate {
-                            Fate::Handled(_) => closed_of[j].is_none_or(|c| c > reqs[*i].seq),
+                            // (the identifier is checked when the request is dispatched, which is not before it
+                            // has been delivered: an exchange closed by then cannot be what it collided with)
+                            Fate::Handled(_) => closed_of[j].is_none_or(|c| c > reqs[*i].delivered.unwrap_or(reqs[*i].seq)),
                             Fate::Unknown => true,
                             Fate::Refused(_) => false,
                         }
@@ -1392,7 +1394,7 @@ pub fn check_c11(ix: &Ix<'_>, v: &mut Vec<Violation>) {
         let cands: Vec<usize> = (0..reqs.len())
             .filter(|i| reqs[*i].fate == Fate::Unknown && reqs[*i].delivered.is_some_and(|d| d < *sq) && want.contains(&reqs[*i].kind))
             .collect();
-        let colliding = cands.iter().copied().find(|i| (0..*i).any(|j| reqs[j].pid == reqs[*i].pid && closed_of[j].is_none_or(|c| c > reqs[*i].seq)));
+        let colliding = cands.iter().copied().find(|i| (0..*i).any(|j| reqs[j].pid == reqs[*i].pid && closed_of[j].is_none_or(|c| c > reqs[*i].delivered.unwrap_or(reqs[*i].seq))));
         if let Some(i) = colliding.or(cands.first().copied()) {
             reqs[i].fate = Fate::Refused(*sq);
         }
@@ -2040,7 +2042,23 @@ pub fn check_c07(ix: &Ix<'_>, v: &mut Vec<Violation>) {
                 // (the notification completing within the very poll that delivered it leaves the handler
                 // that runs in place no chance to be polled)
                 let ctl_pending = ix.gates.iter().any(|c| c.conn == conn && c.kind == GateKind::Control && c.exit.as_ref().is_none_or(|x| x.0 > c.enter));
+                // the connection dispatcher polls its oldest call in place and spawns the ones that arrive while
+                // it is busy: a spawned handler is a task of its own and is polled again once the payload has
+                // been failed - only the in-place one can miss it (the recorded finding)
+                let mut inline_end: u64 = 0;
+                let mut spawned = false;
+                for o in ix.gates.iter().filter(|o| o.conn == conn && matches!(o.kind, GateKind::Publish | GateKind::Proto)) {
+                    let is_inline = o.enter >= inline_end;
+                    if is_inline {
+                        inline_end = o.exit.as_ref().map(|x| x.0).or(o.dropped).unwrap_or(u64::MAX);
+                    }
+                    if o.id == g.id {
+                        spawned = !is_inline;
+                        break;
+                    }
+                }
                 let how = match stop {
+                    _ if spawned => "spawned-handler",
                     Some(_) if !ctl_pending => "stop-handled-within-one-poll",
                     Some(_) => "stop-handled-later",
                     None => "no-stop",
@@ -2852,6 +2870,12 @@ pub fn check_all(out: &RunOut) -> Vec<Violation> {
         "C10C" => {
             check_handler_content(&ix, &mut v, "C10");
             check_c03(&ix, &mut v);
+            // every byte the peer sends in this family is part of a valid packet, whatever the handlers do
+            // with the payloads (read at once, read late, abandon): a protocol or decoding error reported by
+            // the endpoint means payload bytes were taken for something else
+            if let Some((sq, _, StopClass::Protocol(m))) = ix.stops.iter().find(|s| s.1 == 0 && matches!(s.2, StopClass::Protocol(_))) {
+                viol(&mut v, "C10", format!("C10/valid-stream-ended-connection/{}", ix.role()), format!("the peer sent only valid packets, the endpoint ended the connection with {m}"), *sq);
+            }
         }
         "C20" => {
             check_c20(&ix, &mut v);
